@@ -27,7 +27,7 @@ def cases(draw, nums=("frac",), pmax=4):
     return {"U": U, "p": p, "V": V, "q": q, "PU": PU, "PV": PV,
             "num": draw(st.sampled_from(list(nums))),
             "shift": draw(st.sampled_from([None, None, None, F(1), F(-1, 2), "inside-left", "inside-right", "inside"])),
-            "raw": draw(st.booleans())}
+            "raw": draw(st.sampled_from([False, False, "list", "tuple", "ndarray"]))}
 
 
 def check(case, out):
@@ -82,9 +82,16 @@ def check(case, out):
                          f"after the rejected {fl} {name} {fr}: left is {list(left)} (degree {left.degree}), right is {list(right)}")
                 return
         return
-    other = V if case["raw"] else KV  # the operators also accept a plain sequence
+    def plain(seq):
+        # the operators also accept a plain sequence: list, tuple or numpy array (object dtype for Fractions)
+        if case["raw"] == "ndarray":
+            return lib.seq_form(seq, "objarray") if lib.is_exact(num) else lib.np.array([float(x) for x in seq])
+        return tuple(seq) if case["raw"] == "tuple" else list(seq)
+    if case["raw"]:
+        out.cls("right-operand=" + str(case["raw"]))
+    other = plain(V) if case["raw"] else KV
     W = KU | other
-    W2 = KV | (U if case["raw"] else KU)
+    W2 = KV | (plain(U) if case["raw"] else KU)
     expW, d = oracle.union_model(fU, p, fV, q)
     gotW = [oracle.frac(x) for x in W]
     if gotW != expW or W.degree != d:
